@@ -208,7 +208,7 @@ Fixpoint run_lists (cf : cfg) (sb par : list bytes) (st : lstate) (steps : list 
   end.
 
 Definition empty_outcome : outcome :=
-  mkOutcome None nil (mkResult NotFilteredNotFound false nil nil nil nil None) false false nil.
+  mkOutcome None nil (mkResult NotFilteredNotFound false nil nil nil nil None false) false false nil.
 
 Definition ask_q_model (cf : cfg) (sb par : list bytes) (s : pstate) ss q ups up : outcome :=
   ask_q (fun h => mem_bytes h sb) (fun h => mem_bytes h par) (ss_lookup ss) Rewrites.isort s cf (scripted ups up) q.
